@@ -3,6 +3,7 @@ pub mod engines;
 pub mod json;
 pub mod mw;
 pub mod numoracle;
+pub mod numpal;
 pub mod report;
 pub mod rng;
 pub mod sandbox;
